@@ -3913,6 +3913,15 @@ class OptionalNode(ActionSinkNode):
         if sub_dfa.starting_state in sub_dfa.accepting_states:
             raise IllegalDFAStateError("Ambigious path in optional: should use optional or go to next", sub_dfa.starting_state)
 
+        # The start state is about to become an accept state (and to receive the start actions), which is only right if nothing has been
+        # consumed yet whenever the parser is in it. If the body can come back to its start state (e.g. /a*b/ or a loop), enter through a copy.
+        if type(sub_dfa.starting_state) is DFState and sub_dfa.transitions_pointing_to(sub_dfa.starting_state):
+            entry_state = DFState()
+            for trans in sub_dfa.starting_state.all_transitions():
+                entry_state.transition(ProgramData.imbue(trans.copy(), DTAG.PARENT, trans))
+            sub_dfa.add(entry_state)
+            sub_dfa.starting_state = entry_state
+
         sub_dfa.mark_accepting(sub_dfa.starting_state)
 
         # Add starting actions
